@@ -63,6 +63,55 @@ pub fn vc(name: &'static str) -> impl Fn(leptos::children::ChildrenFn) -> AnyVie
     }
 }
 
+// ---- reactive runtime support: a single-threaded queued executor drained at quiescent points ----
+use futures::executor::{LocalPool, LocalSpawner};
+use futures::task::LocalSpawnExt;
+use std::cell::RefCell;
+
+thread_local! {
+    static POOL: RefCell<LocalPool> = RefCell::new(LocalPool::new());
+    static SPAWNER: LocalSpawner = POOL.with(|p| p.borrow().spawner());
+}
+struct Exec;
+impl any_spawner::CustomExecutor for Exec {
+    fn spawn(&self, fut: any_spawner::PinnedFuture<()>) { SPAWNER.with(|s| { let _ = s.spawn_local(fut); }); }
+    fn spawn_local(&self, fut: any_spawner::PinnedLocalFuture<()>) { SPAWNER.with(|s| { let _ = s.spawn_local(fut); }); }
+    fn poll_local(&self) { tick(); }
+}
+pub fn tick() {
+    POOL.with(|p| if let Ok(mut p) = p.try_borrow_mut() { p.run_until_stalled(); });
+}
+pub fn init_exec() {
+    let _ = any_spawner::Executor::init_local_custom_executor(Exec);
+}
+
+/// Runs `f` under a fresh Owner with a provided I18nContext whose locale was set to `locale`
+/// (cookies disabled, no Accept-Language header).
+pub fn with_ctx<L: leptos_i18n::Locale, R>(locale: L, f: impl FnOnce(leptos_i18n::I18nContext<L>) -> R) -> R {
+    use leptos_i18n::context::{init_i18n_context_with_options, CookieOptions, I18nContextOptions, UseLocalesOptions};
+    init_exec();
+    let owner = Owner::new();
+    let r = owner.with(|| {
+        let cookie_opts: CookieOptions<L> = CookieOptions::default()
+            .ssr_cookies_header_getter(|| None)
+            .ssr_set_cookie(|_: &_| {});
+        let lang = UseLocalesOptions::default().ssr_lang_header_getter(|| None);
+        let opts = I18nContextOptions::<L>::default()
+            .enable_cookie(false)
+            .cookie_options(cookie_opts)
+            .ssr_lang_header_getter(lang);
+        let i18n = init_i18n_context_with_options(opts);
+        provide_context(i18n);
+        tick();
+        i18n.set_locale(locale);
+        tick();
+        f(i18n)
+    });
+    tick();
+    drop(owner);
+    r
+}
+
 pub fn guard(id: u32, f: fn()) {
     let r = std::panic::catch_unwind(f);
     if let Err(p) = r {
@@ -169,6 +218,8 @@ publish = false
 [dependencies]
 leptos = { version = "0.7.7", default-features = false, features = ["ssr"] }
 leptos_i18n = { path = "%s/leptos_i18n", default-features = false, features = [%s] }
+any_spawner = "0.2"
+futures = { version = "0.3", features = ["executor"] }
 
 [package.metadata.leptos-i18n]%s
 """ % (self.name, REPO, ", ".join(json.dumps(f) for f in feats), meta)
